@@ -144,6 +144,8 @@ def run(ctx):
     ctx.mc("MC_Wire", cfg, coverage=True, label="parser automaton on all small tapes; all lengths; varint boundaries")
     ctx.require_actions("MC_Wire", ["Feed"])
     events = core.build_events(ctx, gen_inputs(ctx))
+    events += core.suite_events(ctx, ["tests/test_script.py", "tests/test_helper.py", "tests/test_base_wallet.py", "tests/test_keys.py"],
+                                ("ScriptSer", "ScriptParse", "VarintEnc", "VarintRead"), len(events), limit=150 if ctx.quick else 2000)
     for e in events[:1] + events[1000:1002] + events[-1:]:
         ctx.sample({"act": e["act"], "inp": str(e["inp"])[:200], "res": str(e["res"])[:200]})
     rj = ctx.validate(MODULE, events)
